@@ -17,7 +17,7 @@ import (
 
 func init() {
 	register(&Check{ID: "C08", Level: "exploration",
-		Rule: "keys with TTL vectors {0,1,2,3,5,8, mixed, 2^31, 2^32-1, OPT present} x rcodes {0,2,3,9} x record-less NOERROR x TC x failed exchanges x maximum_ttl {default, 3}, probed at scheduled ages before and after each key's reference lifetime in one wall-clock window; displacement scenario through the prefetch window (refresh answered SERVFAIL / NXDOMAIN / REFUSED / rcode 9 / TC=1); " +
+		Rule: "keys with TTL vectors {0,1,2,3,5,8, mixed, 2^31, 2^32-1, OPT present} x rcodes {0,2,3,9} x record-less NOERROR x TC x failed exchanges x maximum_ttl {default, 3}, probed at scheduled ages before and after each key's reference lifetime in one wall-clock window; displacement scenario through the prefetch window (refresh answered SERVFAIL / NXDOMAIN / REFUSED / rcode 9 / TC=1); negative answers whose SOA outlives their other authority record; two proxies sharing a second-level cache (ageing and expiry across the promotion, also of the promoted memory copy); cache hits held up for 2.3 s inside the lookup (delay point) whose TTLs must count up to the moment the answer is put together; concurrent positive / negative stores of one key; " +
 			"one evaluation = one probe response judged; distinct non-trivial = distinct (config, key kind, probe phase: fresh / aged-from-cache / after-expiry) combinations observed",
 		Run: runC08})
 }
@@ -88,7 +88,7 @@ func runC08(c *Ctx) {
 		}(capSec)
 	}
 	wg.Add(1)
-	go func() { defer wg.Done(); c08Redis(c) }()
+	go func() { defer wg.Done(); c08Redis(c); c08Stall(c) }()
 	wg.Wait()
 	c08StoreRace(c) // after the timed scenarios: it is CPU bound and would starve their clocks
 }
